@@ -50,6 +50,14 @@ def witnesses(tname, repeatable=None):
     return out
 
 
+class _New:
+    def __repr__(self):
+        return "<new instance>"
+
+
+NEW = _New()
+
+
 def build_arg(desc):
     """desc: {'kind': 'int'|'bool'|'float'|'none'|'str'|'other'|'pregex'|'expr', ...} -> list of (label, value)"""
     k = desc["kind"]
@@ -69,6 +77,11 @@ def build_arg(desc):
         return pool_for("text")
     if k == "expr":
         return [(desc["expr"], eval(desc["expr"], ns()))]
+    if k == "new":
+        return [("<new instance>", NEW)]
+    if k == "list":
+        return [(repr(desc["value"]).replace("'<object>'", "object()"),
+                 [specrt.Witness() if x == "<object>" else x for x in desc["value"]])]
     raise ValueError(k)
 
 
@@ -157,6 +170,10 @@ def check_call(qualname, contract, args):
 
 
 def _check_call(qualname, contract, args, raises):
+    if args.get("self") is NEW:
+        owner, _ = resolve(qualname)
+        args = dict(args)
+        args["self"] = owner.__new__(owner)      # the constructor is checked as a function of a fresh instance
     env = dict(args)
     req = contract.get("requires")
     if req and not specrt.eval_clause(req, env):
@@ -275,6 +292,20 @@ def pool_for(kind):
                                                    ("0.0", 0.0), ("'s'", "s"), ("object()", specrt.Witness())]
     if kind == "bool":
         return [("True", True), ("False", False)]
+    if kind == "newobj":
+        return [("<new instance>", NEW)]
+    if kind == "intx":
+        return [(repr(i), i) for i in INT_POOL] + [("None", None), ("2.0", 2.0), ("'s'", "s"), ("object()", specrt.Witness())]
+    if kind == "intnb":
+        return [(repr(i), i) for i in INT_POOL + [16, 17]] + [("2.0", 2.0), ("'s'", "s"), ("object()", specrt.Witness())]
+    if kind == "formats":
+        fm = specrt.helpers_namespace()["DATE_FORMATS"]()
+        return [("None", None), ("[]", []), ("'dd/mm/yyyy'", "dd/mm/yyyy"), ("'dd.mm.yyyy'", "dd.mm.yyyy"), ("''", ""),
+                (repr(fm[:3]), fm[:3]), ("['d/m/yy', 'x']", ["d/m/yy", "x"]), ("['yyyy-mm-dd']", ["yyyy-mm-dd"]),
+                ("['YYYY-MM-DD']", ["YYYY-MM-DD"]), (repr(fm), list(fm))]
+    if kind == "affixes":
+        return [("'ab'", "ab"), ("''", ""), ("[]", []), ("['a']", ["a"]), ("['a', 'bc']", ["a", "bc"]), ("['a.', '']", ["a.", ""]),
+                ("5", 5), ("None", None), ("['a', 5]", ["a", 5]), ("[None]", [None]), ("('a',)", ("a",)), ("object()", specrt.Witness())]
     if kind == "int":
         return [(repr(i), i) for i in INT_POOL]
     if kind == "optint":
